@@ -4,8 +4,8 @@ scratch copy of /repo; never touches /repo.  Expected outcome for every property
 but listed; VIOLATION is a false alarm that must be fixed in the machinery.  Writes harmless_report.json.  Not part of any check."""
 import os, sys, json, subprocess, tempfile, shutil, re, hashlib
 VERIF = os.path.dirname(os.path.dirname(os.path.abspath(__file__)))
-def run_one(hid, replay):
-    d = os.path.join(VERIF, "harmless", hid)
+def run_one(hid, replay, base="harmless"):
+    d = os.path.join(VERIF, base, hid)
     tmp = tempfile.mkdtemp(prefix="hl_")
     try:
         for f in ("src", "Cargo.toml", "Cargo.lock"):
@@ -20,10 +20,11 @@ def run_one(hid, replay):
         for l in r.stdout.split("\n"):
             m = re.match(r"^(VIOLATION|UNDECIDED-OBLIGATION|UNDECIDED)\b.*?property=(C\d\d)", l)
             if m:
-                k = "VIOLATION" if m.group(1) == "VIOLATION" else "UNDECIDED"
-                if per.get(m.group(2)) != "VIOLATION": per[m.group(2)] = k
+                k = "UNDECIDED"
+                if m.group(1) == "VIOLATION": k = "VIOLATION(no-input)" if "no-failing-input-found" in l else "VIOLATION"
+                if not per.get(m.group(2), "").startswith("VIOLATION"): per[m.group(2)] = k
         lines = [l[:260] for l in r.stdout.split("\n") if re.match(r"^(VIOLATION|UNDECIDED|FAILED-OBLIGATION|UNDECIDED-OBLIGATION|OUT-OF-REACH|WITNESS)", l)]
-        worst = "VIOLATION" if "VIOLATION" in per.values() else ("UNDECIDED" if ("UNDECIDED" in per.values() or r.returncode == 2) else ("OK" if r.returncode == 0 else "rc=%d" % r.returncode))
+        worst = "VIOLATION" if any(v.startswith("VIOLATION") for v in per.values()) else ("UNDECIDED" if ("UNDECIDED" in per.values() or r.returncode == 2) else ("OK" if r.returncode == 0 else "rc=%d" % r.returncode))
         return {"id": hid, "outcome": worst, "rc": r.returncode, "per_property": per, "lines": lines[:12]}
     finally:
         h = hashlib.md5((tmp + "\n").encode()).hexdigest()[:10]
@@ -32,15 +33,16 @@ def run_one(hid, replay):
         shutil.rmtree(tmp, ignore_errors=True)
 if __name__ == "__main__":
     replay = "--replay" in sys.argv
-    ids = [a for a in sys.argv[1:] if not a.startswith("--")] or sorted(os.listdir(os.path.join(VERIF, "harmless")))
+    base = "seeded" if "--seeded" in sys.argv else "harmless"   # --seeded: cross-property matrix of the seeded (property-breaking) changes
+    ids = [a for a in sys.argv[1:] if not a.startswith("--")] or sorted(x for x in os.listdir(os.path.join(VERIF, base)) if x != "obsolete")
     from concurrent.futures import ThreadPoolExecutor
     with ThreadPoolExecutor(max_workers=3) as ex:
-        res = list(ex.map(lambda s: run_one(s, replay), ids))
+        res = list(ex.map(lambda s: run_one(s, replay, base), ids))
     for r in res:
         bad = {k: v for k, v in (r.get("per_property") or {}).items() if v != "OK"}
         print("%-8s %-10s %s %s" % (r["id"], r["outcome"], bad or "", (r.get("lines") or [""])[0][:140]))
     if len(ids) > 5:
-        json.dump({"results": res}, open(os.path.join(VERIF, "harmless_report.json"), "w"), indent=1)
+        json.dump({"results": res}, open(os.path.join(VERIF, "crosscheck_report.json" if base == "seeded" else "harmless_report.json"), "w"), indent=1)
     c = {}
     for r in res: c[r["outcome"]] = c.get(r["outcome"], 0) + 1
     print(c)
